@@ -167,13 +167,14 @@ void Logging::log( const std::string& log_name, const detail::LogMsg& msg)
 ///    The name of the attribute.
 /// @param[in]  value
 ///    The value for the attribute.
+/// @return
+///    The id of the new attribute, see removeAttributeById().
 /// @since
 ///    1.15.0, 10.10.2018
-void Logging::addAttribute( const std::string& name, const std::string& value)
+size_t Logging::addAttribute( const std::string& name, const std::string& value)
 {
 
-   mAttributes.addAttribute( name, value);
-
+   return mAttributes.addAttribute( name, value);
 } // Logging::addAttribute
 
 
@@ -190,6 +191,21 @@ void Logging::removeAttribute( const std::string& attr_name)
    mAttributes.removeAttribute( attr_name);
 
 } // Logging::removeAttribute
+
+
+
+/// Removes exactly the attribute with the given id, as returned by
+/// addAttribute(). Used by scoped attributes, which must remove their own
+/// attribute even if another attribute with the same name was added later.
+/// 
+/// @param[in]  attr_id  The id of the attribute to remove.
+/// @since  x.y.z, 01.10.2026
+void Logging::removeAttributeById( size_t attr_id)
+{
+
+   mAttributes.removeAttributeById( attr_id);
+
+} // Logging::removeAttributeById
 
 
 
